@@ -259,13 +259,25 @@ def judge(rec, rnd, tmp, k):
         if sum(len(s['exp']) for s in others) == 0:
             return
         path = os.path.join(base, b['sources'][i]['settings']['file'])
-        fault = rnd.choice(['missing', 'directory', 'invalid-utf8'])
-        os.unlink(path)
+        fault = rnd.choice(['missing', 'directory', 'invalid-utf8', 'bad-regex-delimiter', 'oversized-field'])
+        if fault == 'bad-regex-delimiter':
+            # a delimiter pattern that does not compile: the failure is of another exception type (re.error) than an unreadable file
+            saved = dict(b['sources'][i]['settings'])
+            b['sources'][i]['settings']['delimiter'] = rnd.choice(['regex:(', 'regex:[a-', 'regex:(?P<x>\\d+)(?P<x>\\d+)'])
+            B.write_budget(b, root)
+            b['sources'][i]['settings'].clear()
+            b['sources'][i]['settings'].update(saved)
+        else:
+            os.unlink(path)
         if fault == 'directory':
             os.mkdir(path)
         elif fault == 'invalid-utf8':
             with open(path, 'wb') as f:
                 f.write(b'Date,Desc,Amt\n\xff\xfe\xfa broken \x80\x81\n')
+        elif fault == 'oversized-field':
+            # an opening quote that is never closed followed by more text than the csv module accepts in one field (csv.Error)
+            with open(path, 'w', encoding='utf-8') as f:
+                f.write('Date,Desc,Amt\n2025-01-05,"never closed ' + 'x' * 140000 + '\n2025-01-06,OK,5.00\n')
         quiet = rnd.random() < .5
         pq = run_up(root, cfg, quiet=quiet)
         rec.count('cli_runs')
